@@ -274,6 +274,8 @@ def oracle_c05(tr):
     if not tr.ok:
         return None
     for op, res, b0, a0, b1, a1, now, prices in walk(tr):
+        if op[0] == 37 and res == "OK":
+            return {"key": "liquidated-without-risk-accounts", "what": "a liquidation that passed nobody's risk accounts succeeded"}
         if op[0] != 17 or res != "OK":
             continue
         liqor, liqee, ab, lb, amt = op[1:6]
